@@ -107,7 +107,10 @@ class ResourceAd(_Ad):
     def release(self, wk, h, a, m):
         h.release()
         if wk.cur.get("dbl"):      # Grant.release is documented as idempotent
+            self.w.rec("rel", wk.rid)
+            self.w.ad.scan()
             h.release()
+            self.w.rec("xrel", wk.rid)
 
     def scan(self):
         if not self.pending:
@@ -274,7 +277,8 @@ class Worker(Entity):
                 yield W.delay(d)
             W.ad.release(self, h, a, m)
             self.state = "idle"
-            W.rec("rel", self.rid)
+            if not (rnd.get("dbl") and W.ad.pl):
+                W.rec("rel", self.rid)
             W.ad.scan()
         return None
 
